@@ -1422,6 +1422,12 @@ class Dyn(Calls):
             return VStr(z3.Function("unbox_str", ObjSort, z3.StringSort())(v.t))
         return super().coerce(v, ty)
 
+    def exc_of_obj(self, v):
+        """raise <object>: an instance of Exception (of an unknown subclass) is raised as itself; anything else is a TypeError."""
+        if not self.branch(self.class_pred("Exception")(v.t)):
+            return VExc("TypeError", [VStr("exceptions must derive from BaseException")])
+        return VExc("Exception", [], exact=False, tag=v.t)
+
     def iter_view(self, it):
         """for x in <opaque collection object>: the object's own iteration (a sequence view whose length and items are functions of the object);
         iterating None raises TypeError."""
